@@ -207,7 +207,7 @@ func init() {
 				for occ := 0; occ < 4*len(p.Ops); occ++ {
 					for _, call := range []string{"drv.Exec", "drv.Commit", "drv.Rollback"} {
 						if r.Chance(0.06) {
-							p.Faults = append(p.Faults, Fault{At: fmt.Sprintf("c0:%s#%d", call, occ), Kind: "fail"})
+							p.Faults = append(p.Faults, Fault{At: fmt.Sprintf("c0:%s#%d", call, occ), Kind: drvKind(r)})
 						}
 					}
 				}
